@@ -79,7 +79,7 @@ func specMs(d time.Duration) float64 { return ConvertDurationToMs(d) }
 //@ modifies nothing
 
 //@ func TracerouteSerial
-//@ safety C03 C04 C05
+//@ safety C03 C04 C05 C10
 //@ modifies *, ghost clock, ghost sendN, ghost sendLog, ghost sendClock
 //@ ghost sendN Int
 //@ ghost sendLog (Array Int Int)
@@ -88,6 +88,12 @@ func specMs(d time.Duration) float64 { return ConvertDurationToMs(d) }
 //@ requires[pre.ghost]        sendN >= 0
 //@ ensures[ghost.mono]        sendN >= old(sendN)
 //@ ensures[C10.ser.atom]      ret1 != nil ==> ret0 == nil
+//@ ensures[C10.ser.send.fatal] ncalls(TracerouteDriver.SendProbe) > old(ncalls(TracerouteDriver.SendProbe)) && lastres(TracerouteDriver.SendProbe, 0) != nil ==> ret1 != nil && wraps(ret1, lastres(TracerouteDriver.SendProbe, 0))
+//@ ensures[C10.ser.recv.fatal] ncalls(TracerouteDriver.ReceiveProbe) > old(ncalls(TracerouteDriver.ReceiveProbe)) && lastres(TracerouteDriver.ReceiveProbe, 1) != nil && !CheckProbeRetryable("ReceiveProbe", lastres(TracerouteDriver.ReceiveProbe, 1)) ==> ret1 != nil && wraps(ret1, lastres(TracerouteDriver.ReceiveProbe, 1))
+//@ loop 1 invariant[calls.mono] ncalls(TracerouteDriver.SendProbe) >= old(ncalls(TracerouteDriver.SendProbe)) && ncalls(TracerouteDriver.ReceiveProbe) >= old(ncalls(TracerouteDriver.ReceiveProbe))
+//@ loop 2 invariant[calls.mono] ncalls(TracerouteDriver.ReceiveProbe) >= old(ncalls(TracerouteDriver.ReceiveProbe))
+//@ loop 1 invariant[C10.handled] (ncalls(TracerouteDriver.SendProbe) == old(ncalls(TracerouteDriver.SendProbe)) || lastres(TracerouteDriver.SendProbe, 0) == nil) && (ncalls(TracerouteDriver.ReceiveProbe) == old(ncalls(TracerouteDriver.ReceiveProbe)) || lastres(TracerouteDriver.ReceiveProbe, 1) == nil || CheckProbeRetryable("ReceiveProbe", lastres(TracerouteDriver.ReceiveProbe, 1)))
+//@ loop 2 invariant[C10.handled] lastres(TracerouteDriver.SendProbe, 0) == nil && ncalls(TracerouteDriver.SendProbe) > old(ncalls(TracerouteDriver.SendProbe)) && (ncalls(TracerouteDriver.ReceiveProbe) == old(ncalls(TracerouteDriver.ReceiveProbe)) || lastres(TracerouteDriver.ReceiveProbe, 1) == nil || CheckProbeRetryable("ReceiveProbe", lastres(TracerouteDriver.ReceiveProbe, 1)))
 //@ ensures[C03.ser.len]       ret1 == nil ==> len(ret0) >= 1 && len(ret0) <= int(p.MaxTTL)-int(p.MinTTL)+1
 //@ ensures[C03+C01.ser.ttl]   ret1 == nil ==> forall(k, 0, len(ret0), ret0[k] != nil ==> int(ret0[k].TTL) == int(p.MinTTL)+k)
 //@ ensures[C03.ser.onlylast]  ret1 == nil ==> forall(k, 0, len(ret0)-1, !specIsDest(ret0[k]))
